@@ -7,8 +7,8 @@ the source's value and default flag (when the merge options make the source over
 children of `x` below the found node.  Two facts make it the backbone of the content theorems:
 * merging an absorbed node is the identity (`absorbed_noop`);
 * after `merge t s` every node of `s` is absorbed in the result (`LemmasAbsorb2`).
-Source nodes: no instance of a key-less list / state leaf-list (those are matched through the cache, see the OPEN note
-in Props/C14.lean).
+Source nodes: no instance of a key-less list / state leaf-list (those are matched through the cache; the general
+predicate is `AbsD` in `LemmasDI2`, which `merge_idempotent` and the `_pos` theorems of Props/C14.lean use).
 -/
 namespace LyModel.Merge
 open LyModel LyModel.Tree
